@@ -283,6 +283,30 @@ pub fn mutate(args: &str, item_src: &str, donors: &[(String, String)], rng: &mut
                 edit_punct(&mut e.variants, op, rng);
             }
         }
+        7 if matches!(&item, syn::Item::Impl(_)) && rng.below(2) == 0 => {
+            // impl items: edit the generic arguments of the trait path (`Add<X>` -> `Add<>`, `Add<X, X>`, ..) or drop them
+            if let syn::Item::Impl(im) = &mut item {
+                if let Some((_, path, _)) = &mut im.trait_ {
+                    if let Some(seg) = path.segments.last_mut() {
+                        match &mut seg.arguments {
+                            syn::PathArguments::AngleBracketed(a) => {
+                                if rng.below(4) == 0 {
+                                    seg.arguments = syn::PathArguments::None;
+                                } else {
+                                    let op = rng.below(3);
+                                    edit_punct(&mut a.args, op, rng);
+                                }
+                            }
+                            _ => {
+                                if let Ok(a) = syn::parse_str::<syn::AngleBracketedGenericArguments>(["<>", "<Self>", "<&Self>", "<u8, u8>"][rng.below(4)]) {
+                                    seg.arguments = syn::PathArguments::AngleBracketed(a);
+                                }
+                            }
+                        }
+                    }
+                }
+            }
+        }
         7 => {
             let g: Option<&mut syn::Generics> = match &mut item {
                 syn::Item::Struct(s) => Some(&mut s.generics),
@@ -353,7 +377,10 @@ pub fn mutate(args: &str, item_src: &str, donors: &[(String, String)], rng: &mut
             let alt = ["union U { a : u8 }", "fn f() {}", "trait Tr {}", "impl X {}", "impl !Send for X {}", "type A = u8;", "mod m {}",
                 "impl core::ops::Add<&X> for &X { type Output = X; fn add(self, r : &X) -> X { todo!() } }",
                 "impl core::ops::AddAssign for X { fn add_assign(&mut self, r : X) {} }",
-                "impl<T> core::ops::Sub<T> for X<T> where Self : Sized { fn sub(self, r : T) -> Self { self } }"];
+                "impl<T> core::ops::Sub<T> for X<T> where Self : Sized { fn sub(self, r : T) -> Self { self } }",
+                "impl core::ops::Mul<> for X { type Output = X; fn mul(self, r : X) -> X { r } }",
+                "impl core::ops::Shl<Self> for &X { type Output = X; fn shl(self, r : &X) -> X { todo!() } }",
+                "impl core::ops::BitOr<Option<Self>> for X { type Output = Self; fn bitor(self, r : Option<X>) -> X { self } }"];
             if rng.below(3) == 0 {
                 item = syn::parse_str(alt[rng.below(alt.len())]).ok()?;
             }
